@@ -64,6 +64,20 @@ class C07(Prop):
             a, b = CC.gen_pair(rng, rng.choice([2, 3]), dict, keys=["", "a", " ", "0", "b"])
             for walk in ("direct", "compare"):
                 out.append({"stream": "cmp", "tag": "oddkeys:" + walk, "input": {"a": a, "b": b, "walk": walk, "setters": []}})
+        # a NaN leaf on one side against an ordinary number on the other (same place, nothing else differs): the trees
+        # differ.  The model's value type has no NaN: oracle only, the observation is the number of differences.
+        for _ in range(40 if quick else 1000):
+            a, b = CC.gen_pair(rng, rng.choice([2, 3]), dict, edits=0)
+            ps = [p for p in CC.positions(a) if p and not isinstance(CC.resolve(a, p), (dict, list))]
+            if not ps:
+                continue
+            p = rng.choice(ps)
+            left = rng.random() < 0.5
+            for t, val in ((a, float("nan") if left else 1.5), (b, 1.5 if left else float("nan"))):
+                par = CC.resolve(t, p[:-1])
+                par[p[-1]] = val
+            for walk in ("direct", "compare"):
+                out.append({"stream": "cmp_nan", "tag": "nan:" + walk, "input": {"a": a, "b": b, "walk": walk, "setters": CC.gen_setters(rng)}})
         # lists whose items collide under str(): 1 / "1", 1.0 / "1.0", True / "True", "" next to records,
         # nested dicts in different key order (the zone of the known finding C07/str-keys)
         pool = [1, "1", 1.0, "1.0", True, "True", "", None, "None", {"k": 1}, {"k": 1, "n": 2}, {"n": 2, "k": 1},
@@ -78,7 +92,7 @@ class C07(Prop):
             out.append({"stream": "cmp", "tag": "collide:" + walk,
                         "input": {"a": {"a": xs}, "b": {"a": ys}, "walk": walk, "setters": CC.gen_setters(rng) if rng.random() < 0.3 else []}})
         # the guard of the default-compare theorem vs the classifier of the known finding
-        for c in [c for c in out if c["input"]["walk"] == "compare"][-(400 if quick else 6000):]:
+        for c in [c for c in out if c["stream"] == "cmp" and c["input"]["walk"] == "compare"][-(400 if quick else 6000):]:
             out.append({"stream": "guard", "tag": "guard", "input": {"a": c["input"]["a"], "b": c["input"]["b"], "walk": "compare"}})
         # exhaustive small scope: all pairs of small trees under a key
         small = CC.small_trees(["a", "b"], [None, True, 1, 1.0, "1", ""], 1)
@@ -99,12 +113,23 @@ class C07(Prop):
         return out
 
     def valid(self, case):
+        if case.get("stream") == "cmp_nan":
+            return False
         i = case.get("input")
         return CC.valid_input(i) and not i.get("ck") and not i.get("only") and not i.get("excl") and not i.get("tr")
 
     # ---- implementation ---------------------------------------------------------------
     def run_impl(self, case):
         i = case["input"]
+        if case["stream"] == "cmp_nan":
+            A, B = self.impl.build(i["a"], "conv"), self.impl.build(i["b"], "conv")
+            try:
+                self.impl.reset_flags()
+                self.impl.apply_setters(i.get("setters", []))
+                res = (A.direct_compare if i["walk"] == "direct" else A.compare)(B)
+                return {"ok": ["i", len(dict.__getitem__(res, "differences"))]}
+            finally:
+                self.impl.reset_flags()
         if case["stream"] == "guard":
             return {"ok": ["b", bool(CC.keys_ok(i["a"], i["b"]))]}
 
@@ -125,6 +150,10 @@ class C07(Prop):
         i = case["input"]
         if case["stream"] == "guard":
             return None
+        if case["stream"] == "cmp_nan":
+            if "raise" in obs:
+                return "the comparison raised %s" % obs.get("exc", obs["raise"])
+            return None if obs["ok"][1] > 0 else "a NaN leaf against the number 1.5 at the same place: the trees differ, no difference reported"
         if "raise" in obs:
             return "the comparison raised %s" % obs.get("exc", obs["raise"])
         rep = obs["rep"]
